@@ -80,6 +80,7 @@ def _hsnode(c, name, replay=None):
 
 def run(c):
     c.proofs("theories/Properties/C16.v", clean=(c.tier == "thorough"))
+    c.translate(['TieProto', 'TieEdf'])  # T1: formulas / constants regenerated from the source, tie theorems re-checked
     import vlib
     ok, log = vlib.coq_make(["theories/Hostile/Cases.vo"])
     if not ok:
